@@ -75,7 +75,10 @@ pub fn self_case(fam: &Family, enc: Enc, a: u32, loc: &mut Local) -> Vec<String>
                     v
                 };
                 if cells(&r) != cells(&fam.m[a as usize]) {
-                    cl.push(format!("C06 self-op-boundary!=boundary-of-A {}", op_name(op)));
+                    cl.push(format!(
+                        "C06 self-op-boundary!=boundary-of-A {}",
+                        op_name(op)
+                    ));
                 }
             }
             _ => {
@@ -88,7 +91,11 @@ pub fn self_case(fam: &Family, enc: Enc, a: u32, loc: &mut Local) -> Vec<String>
     cl
 }
 
-pub const EMPTIES: [&str; 3] = ["no-polygons", "one-polygon-without-vertices", "two-polygons-without-vertices"];
+pub const EMPTIES: [&str; 3] = [
+    "no-polygons",
+    "one-polygon-without-vertices",
+    "two-polygons-without-vertices",
+];
 pub fn empty_operand(kind: &str) -> MP {
     let e = || Polygon::new(LineString::<f64>(vec![]), vec![]);
     match kind {
@@ -105,7 +112,11 @@ pub fn empty_case(fam: &Family, enc: Enc, a: u32, kind: &str, loc: &mut Local) -
     let mut cl = vec![];
     for op in OPS {
         for empty_first in [false, true] {
-            let r = if empty_first { res_of(&e, pa, op, loc) } else { res_of(pa, &e, op, loc) };
+            let r = if empty_first {
+                res_of(&e, pa, op, loc)
+            } else {
+                res_of(pa, &e, op, loc)
+            };
             let r = match r {
                 Some(r) => r,
                 None => {
@@ -120,10 +131,18 @@ pub fn empty_case(fam: &Family, enc: Enc, a: u32, kind: &str, loc: &mut Local) -
             };
             let got = ring_set(&r, Nf::D);
             if expect_a && got != want {
-                cl.push(format!("C06 empty-operand-result!=A{} {}", if empty_first { " (empty first)" } else { "" }, op_name(op)));
+                cl.push(format!(
+                    "C06 empty-operand-result!=A{} {}",
+                    if empty_first { " (empty first)" } else { "" },
+                    op_name(op)
+                ));
             }
             if !expect_a && !got.is_empty() {
-                cl.push(format!("C06 empty-operand-result-not-empty{} {}", if empty_first { " (empty first)" } else { "" }, op_name(op)));
+                cl.push(format!(
+                    "C06 empty-operand-result-not-empty{} {}",
+                    if empty_first { " (empty first)" } else { "" },
+                    op_name(op)
+                ));
             }
         }
     }
@@ -138,10 +157,21 @@ fn extent(cx: &Complex) -> (f64, f64) {
 }
 
 /// B is translated so that the bounding boxes of the two complexes touch (gap 0) or are separated (gap 1)
-pub fn translate_case(fam: &Family, a: u32, b: u32, axis: u8, gap: u8, loc: &mut Local) -> Vec<String> {
+pub fn translate_case(
+    fam: &Family,
+    a: u32,
+    b: u32,
+    axis: u8,
+    gap: u8,
+    loc: &mut Local,
+) -> Vec<String> {
     let cx = &fam.cx;
     let (w, h) = extent(cx);
-    let (dx, dy) = if axis == 0 { (w + gap as f64, 0.0) } else { (0.0, h + gap as f64) };
+    let (dx, dy) = if axis == 0 {
+        (w + gap as f64, 0.0)
+    } else {
+        (0.0, h + gap as f64)
+    };
     let pa = &fam.m[a as usize];
     let pb = map_mp(&fam.m[b as usize], &|p| (p.0 + dx, p.1 + dy));
     let mut cl = vec![];
@@ -183,13 +213,22 @@ pub fn translate_case(fam: &Family, a: u32, b: u32, axis: u8, gap: u8, loc: &mut
             Operation::Difference => (a, 0),
         };
         if (left, right) != (el, er) {
-            cl.push(format!("C06 disjoint-or-touching-boxes-wrong-region {}", op_name(op)));
+            cl.push(format!(
+                "C06 disjoint-or-touching-boxes-wrong-region {}",
+                op_name(op)
+            ));
         }
         if bad_struct {
-            cl.push(format!("C06 disjoint-or-touching-boxes-invalid-result {}", op_name(op)));
+            cl.push(format!(
+                "C06 disjoint-or-touching-boxes-invalid-result {}",
+                op_name(op)
+            ));
         }
         if op == Operation::Intersection && !r.0.is_empty() {
-            cl.push(format!("C06 disjoint-or-touching-boxes-intersection-not-empty {}", op_name(op)));
+            cl.push(format!(
+                "C06 disjoint-or-touching-boxes-intersection-not-empty {}",
+                op_name(op)
+            ));
         }
         if gap > 0 && a != 0 && b != 0 {
             // boxes are disjoint: the inputs are handed back as given
@@ -205,7 +244,10 @@ pub fn translate_case(fam: &Family, a: u32, b: u32, axis: u8, gap: u8, loc: &mut
             };
             want.sort();
             if got != want {
-                cl.push(format!("C06 disjoint-boxes-rings-not-the-obvious-combination {}", op_name(op)));
+                cl.push(format!(
+                    "C06 disjoint-boxes-rings-not-the-obvious-combination {}",
+                    op_name(op)
+                ));
             }
         }
     }
@@ -222,7 +264,13 @@ fn sweep_family(st: &Stats, fam: &Family, encs: &[Enc], translates: bool) {
     let n = fam.cx.noperands();
     let name = fam.cx.name.clone();
     for &enc in encs {
-        st.family(&format!("{}/{}: swap on {} unordered pairs, self and 3 empty encodings on {} operands", name, enc.name(), (n as u64 * (n as u64 + 1)) / 2, n));
+        st.family(&format!(
+            "{}/{}: swap on {} unordered pairs, self and 3 empty encodings on {} operands",
+            name,
+            enc.name(),
+            (n as u64 * (n as u64 + 1)) / 2,
+            n
+        ));
         (0..n).into_par_iter().for_each(|a| {
             let mut loc = Local::default();
             for b in a..n {
@@ -271,7 +319,13 @@ fn sweep_family(st: &Stats, fam: &Family, encs: &[Enc], translates: bool) {
 }
 
 /// float tables: regions of op(A,B) and op(B,A) agree at every witness (coordinates are computed in floating point)
-fn table_swap(t: &crate::tables::Table, spec: &TableSpec, ia: usize, ib: usize, loc: &mut Local) -> Vec<String> {
+fn table_swap(
+    t: &crate::tables::Table,
+    spec: &TableSpec,
+    ia: usize,
+    ib: usize,
+    loc: &mut Local,
+) -> Vec<String> {
     let (a, b) = (&t.ops[ia], &t.ops[ib]);
     let mut edges = a.edges.clone();
     edges.extend(b.edges.iter().cloned());
@@ -279,7 +333,11 @@ fn table_swap(t: &crate::tables::Table, spec: &TableSpec, ia: usize, ib: usize, 
     let mut cl = vec![];
     for op in [Operation::Intersection, Operation::Union, Operation::Xor] {
         if let (Some(x), Some(y)) = (res_of(&a.mp, &b.mp, op, loc), res_of(&b.mp, &a.mp, op, loc)) {
-            if wit.pts.iter().any(|&w| (polywise(&x, w) >= 1) != (polywise(&y, w) >= 1)) {
+            if wit
+                .pts
+                .iter()
+                .any(|&w| (polywise(&x, w) >= 1) != (polywise(&y, w) >= 1))
+            {
                 cl.push(format!("C06 swap-changes-region {}", op_name(op)));
             }
         } else {
@@ -295,7 +353,13 @@ pub fn replay(case: &Value, verbose: bool) -> Vec<String> {
     if kind == "table-swap" {
         let spec = TableSpec::from_json(&case["table"]);
         let t = spec.build();
-        return table_swap(&t, &spec, case["a"].as_u64().unwrap() as usize, case["b"].as_u64().unwrap() as usize, &mut loc);
+        return table_swap(
+            &t,
+            &spec,
+            case["a"].as_u64().unwrap() as usize,
+            case["b"].as_u64().unwrap() as usize,
+            &mut loc,
+        );
     }
     let fam = family_cached(case["family"].as_str().unwrap());
     let enc = enc_from(case["enc"].as_str().unwrap_or("M"));
@@ -309,7 +373,14 @@ pub fn replay(case: &Value, verbose: bool) -> Vec<String> {
         "swap" => swap_case(&fam, enc, a, b, &mut loc),
         "self" => self_case(&fam, enc, a, &mut loc),
         "empty" => empty_case(&fam, enc, a, case["empty"].as_str().unwrap(), &mut loc),
-        "translate" => translate_case(&fam, a, b, case["axis"].as_u64().unwrap() as u8, case["gap"].as_u64().unwrap() as u8, &mut loc),
+        "translate" => translate_case(
+            &fam,
+            a,
+            b,
+            case["axis"].as_u64().unwrap() as u8,
+            case["gap"].as_u64().unwrap() as u8,
+            &mut loc,
+        ),
         k => panic!("unknown C06 case kind {k}"),
     }
 }
@@ -320,7 +391,14 @@ pub fn run(tier: &str) -> i32 {
     let thorough = tier == "thorough";
     for name in QUICK_COMPLEX {
         let fam = Family::new(name);
-        sweep_family(&st, &fam, &[Enc::M, Enc::U], name == "G22" || name == "T22" || (thorough && (name == "G32" || name == "O21" || name == "G23")));
+        sweep_family(
+            &st,
+            &fam,
+            &[Enc::M, Enc::U],
+            name == "G22"
+                || name == "T22"
+                || (thorough && (name == "G32" || name == "O21" || name == "G23")),
+        );
     }
     if thorough {
         for name in ["G43", "G34", "T32"] {
@@ -351,7 +429,11 @@ pub fn run(tier: &str) -> i32 {
         cnt.fetch_add(loc.states, std::sync::atomic::Ordering::Relaxed);
         st.merge(&loc);
     });
-    st.family(&format!("{}: swap as regions on {} unordered pairs", spec.name, cnt.into_inner()));
+    st.family(&format!(
+        "{}: swap as regions on {} unordered pairs",
+        spec.name,
+        cnt.into_inner()
+    ));
     st.sample(json!({"law": "A.intersection(A) == A", "family": "G33", "a_mask": 495, "A": hex(&Family::new("G33").m[495]), "note": "3x3 ring with a hole: every edge coincides with itself"}));
     st.sample(json!({"law": "op(A, B + (2,0)) for touching boxes", "family": "G22", "a_mask": 10, "b_mask": 5}));
     finish(
